@@ -2,7 +2,7 @@
 C06 — only valid chain extensions are accepted; a rejected block changes nothing.
 Property theorems over the model `NeoModel.Model.AddBlock` (helper lemmas: Proofs/AddBlock*.lean).
 -/
-import NeoModel.Proofs.AddBlockInv
+import NeoModel.Proofs.AddBlockTx
 namespace NeoModel.AddBlock
 variable {L : Type}
 
@@ -51,32 +51,36 @@ example : exNode.headers ≠ [] ∧ Indexed exNode.headers := by
 -- and the untouched block is accepted
 example : (addBlock exEnv exNode b1).2 = none ∧ (addBlock exEnv exNode b1).1.blockHeight = 1 := by decide
 
-/-! ### C06 (1): only valid extensions are accepted
+/-! ### C06 (1): only valid extensions are accepted -/
 
-Full statement (FALSE for the code as written, see the three negation witnesses below):
+/-- C06 (1), full strength. If AddBlock accepts `b` (block verification on) at a node satisfying the
+header-chain invariant, then `b` directly extends the tip (next index, previous hash, strictly later
+timestamp), carries the Merkle root of its transactions, is signed — with the witness it presents —
+by the consensus address the tip designates, has the configured state-root flag and, with state roots
+in headers, the local state root as PrevStateRoot; its transaction hashes are pairwise different;
+and with VerifyTransactions every transaction is individually valid and the transactions are
+mutually compatible (no Conflicts reference between two of them, every sender can pay all of its
+transactions of the block).
 
-    addBlock env s b = (s', none) → ¬skip → Inv env s → HashBinds s b →
-      b.index = blockHeight+1 ∧ b.prevHash = tip.hash ∧ tip.ts < b.ts ∧ merkle ok ∧
-      signedBy b.wit b.hash tip.nextConsensus ∧ (sr → b.prevStateRoot = local root) ∧
-      (verifyTx → ∀ t ∈ b.txs, txValid t) ∧ (verifyTx → txs mutually compatible)
-
-Proved: the same with (a) the signature conjunct weakened, when the header is already recorded, to
-"the RECORDED header's witness signs"; (b) the transaction conjunct weakened to "valid or its hash
-is in the mempool"; (c) mutual compatibility only for blocks without in-block Conflicts references
-(`accepted_txs_compatible_partial`). -/
-theorem accept_only_valid_partial (env : Env L) (s s' : Node L) (b : Block)
+Hypotheses besides the invariant: no hash collision among the recorded headers and the block's header
+(`HashBinds`); the mempool holds only transactions that are valid at this state (mempool soundness,
+C07's subject) and a pooled transaction with the same hash and witness as a block transaction is
+that transaction (`htx`, collision-freeness of the transaction hash). -/
+theorem accept_only_valid (env : Env L) (s s' : Node L) (b : Block)
     (hskip : s.cfg.skip = false) (hinv : Inv env s) (hbind : HashBinds s b)
+    (hpool : ∀ q ∈ s.pool, env.txValid s.ledger s.blockHeight q = true)
+    (htx : ∀ q ∈ s.pool, ∀ t ∈ b.txs, q.id = t.id → q.wit = t.wit → q = t)
     (h : addBlock env s b = (s', none)) :
     ∃ tip, s.headers[s.blockHeight]? = some tip ∧
       b.hdr.index = s.blockHeight + 1 ∧
       b.hdr.prevHash = tip.hash ∧ tip.ts < b.hdr.ts ∧
       b.hdr.merkleRoot = env.merkle (b.txs.map (·.id)) ∧
+      env.signedBy b.hdr.wit b.hdr.hash tip.nextConsensus = true ∧
       b.hdr.sre = s.cfg.sr ∧
       (s.cfg.sr = true → b.hdr.prevStateRoot = env.rootOf s.ledger) ∧
-      ((b.hdr.index = s.headerHeight + 1 ∧ env.signedBy b.hdr.wit b.hdr.hash tip.nextConsensus = true) ∨
-       (b.hdr.index ≤ s.headerHeight ∧ ∃ kh, s.headers[b.hdr.index]? = some kh ∧ kh.hash = b.hdr.hash ∧
-          env.signedBy kh.wit b.hdr.hash tip.nextConsensus = true)) ∧
-      (s.cfg.verifyTx = true → ∀ t ∈ b.txs, env.txValid s.ledger s.blockHeight t = true ∨ t.id ∈ s.pool) := by
+      (b.txs.map (·.id)).Nodup ∧
+      (s.cfg.verifyTx = true → (∀ t ∈ b.txs, env.txValid s.ledger s.blockHeight t = true) ∧
+        Compatible (env.balance s.ledger) b.txs) := by
   rcases addBlock_spec env s s' b none h with ⟨_, _, e, he⟩ | ⟨_, _, _, he⟩ | ⟨hbi, hbsr, s1, r1, hs1, hrest⟩
   · cases he
   · cases he
@@ -90,52 +94,75 @@ theorem accept_only_valid_partial (env : Env L) (s s' : Node L) (b : Block)
     · exact ⟨rfl, rfl, rfl, rfl⟩
     · exact ⟨rfl, rfl, rfl, rfl⟩
   obtain ⟨e1, e2, e3, e4⟩ := hsame
-  obtain ⟨hm, hl, _⟩ := bodyStep_ok env s1 s' b (by rw [e1]; exact hskip) hbody
-  refine ⟨tip, htip, hbi, c1, c2, hm, hbsr, c3, c4, ?_⟩
-  intro hv t ht
-  have := txLoop_verified env s1 (by rw [e1]; exact hv) [] b.txs hl t ht
-  rw [e2, e3, e4] at this
-  exact this
+  obtain ⟨hm, hd, hl, _⟩ := bodyStep_ok env s1 s' b (by rw [e1]; exact hskip) hbody
+  have hnd := hasDup_false_nodup _ hd
+  refine ⟨tip, htip, hbi, c1, c2, hm, c4, hbsr, c3, hnd, ?_⟩
+  intro hv
+  have hv1 : s1.cfg.verifyTx = true := by rw [e1]; exact hv
+  constructor
+  · intro t ht
+    have := txLoop_verified env s1 hv1 [] b.txs hl t ht
+    rw [e2, e3] at this
+    rcases this with hval | hps
+    · exact hval
+    · unfold pooledSame at hps
+      rw [e4, List.any_eq_true] at hps
+      obtain ⟨q, hq, hqe⟩ := hps
+      simp only [Bool.and_eq_true, beq_iff_eq] at hqe
+      have := htx q hq t ht hqe.1 hqe.2
+      rw [← this]; exact hpool q hq
+  · obtain ⟨p1, _, p3⟩ := txLoop_compatible env s1 hv1 [] b.txs hl
+    refine ⟨hnd, p1, ?_⟩
+    intro a ha
+    have := p3 a ha
+    rw [e3] at this
+    simpa [sumFee, sumBy] using this
 
 -- non-vacuity: `exNode`/`b1` meet the hypotheses and the block is accepted
 example : Inv exEnv exNode ∧ (addBlock exEnv exNode b1).2 = none :=
   ⟨inv_genesis exEnv exCfg g0 3 [] rfl, by decide⟩
 
-/-! Negation witnesses of the full statement (each is a replay of a finding on the real node). -/
+/-! The four defects this check found in the code as it was (now fixed: d99d969, ec0103c, d0c3ec8,
+ab64b57) as concrete replays on the model: each block was accepted by the old decision logic and is
+rejected now. -/
 
 /-- header `h1` already recorded ahead of the tip (as after AddHeaders) -/
 def exAhead : Node Nat := { exNode with headers := [g0, h1] }
 /-- the valid block with a corrupted witness (19 instead of 18) -/
 def b1BadWit : Block := { b1 with hdr := { h1 with wit := 19 } }
 
-/-- (a) known-header-corrupted-witness: accepted, the presented witness does not sign, and it is
-the one that ends up stored. -/
-theorem accept_only_valid_fails_known_header :
-    (addBlock exEnv exAhead b1BadWit).2 = none ∧
-      exEnv.signedBy b1BadWit.hdr.wit b1BadWit.hdr.hash g0.nextConsensus = false ∧
-      (addBlock exEnv exAhead b1BadWit).1.headers = [g0, { h1 with wit := 19 }] := by decide
+/-- (a) header already known, corrupted witness: rejected, nothing stored; the untouched block passes -/
+theorem known_header_corrupted_witness_rejected :
+    (addBlock exEnv exAhead b1BadWit).2 = some .witness ∧
+      (addBlock exEnv exAhead b1BadWit).1.headers = exAhead.headers ∧ (addBlock exEnv exAhead b1).2 = none := by
+  decide
 
 /-- the mempool holds transaction 42 -/
-def exPooled : Node Nat := { exNode with pool := [42] }
+def exPooled : Node Nat := { exNode with pool := [t42] }
 /-- the valid block carrying transaction 42 with a corrupted witness -/
 def b1BadTxWit : Block := { b1 with txs := [{ t42 with wit := 43 }] }
 
-/-- (b) pooled-tx-witness-not-checked: accepted with VerifyTransactions although the transaction
-as received is not valid. -/
-theorem accept_only_valid_fails_pooled_tx :
-    (addBlock exEnv exPooled b1BadTxWit).2 = none ∧ exPooled.cfg.verifyTx = true ∧
-      exEnv.txValid exPooled.ledger exPooled.blockHeight { t42 with wit := 43 } = false := by decide
+/-- (b) pooled transaction, block copy with a corrupted witness: rejected; the untouched block passes -/
+theorem pooled_tx_corrupted_witness_rejected :
+    (addBlock exEnv exPooled b1BadTxWit).2 = some .tx ∧ (addBlock exEnv exPooled b1).2 = none := by decide
 
 /-- t50 names t42 in a Conflicts attribute, same sender, higher network fee -/
 def t50 : Tx := { id := 50, wit := 50, sender := 1, fee := 6, netFee := 3, conflicts := [42] }
 def b1Conflict : Block :=
   { hdr := { h1 with hash := 12, merkleRoot := 92, wit := 19 }, txs := [t42, t50] }
 
-/-- (c) inblock-conflict-accepted: a block with two valid but mutually conflicting transactions,
-signed by the validators, is accepted with VerifyTransactions. -/
-theorem accept_only_valid_fails_inblock_conflict :
-    (addBlock exEnv exNode b1Conflict).2 = none ∧ exNode.cfg.verifyTx = true ∧
-      t50.conflicts.contains t42.id = true := by decide
+/-- (c) two valid but conflicting transactions in a block signed by the validators: rejected
+(its validly signed header stays recorded) -/
+theorem inblock_conflict_rejected :
+    (addBlock exEnv exNode b1Conflict).2 = some .tx ∧
+      (addBlock exEnv exNode b1Conflict).1.headers = [g0, b1Conflict.hdr] := by decide
+
+/-- (d) a repeated transaction is rejected even without VerifyTransactions. (With the real Merkle
+function the list [a,b,c,c] has the root of [a,b,c]; here the header simply carries the root of the
+longer list.) -/
+theorem duplicate_tx_rejected :
+    (addBlock exEnv { exNode with cfg := { exCfg with verifyTx := false } }
+      { hdr := { h1 with merkleRoot := 84 }, txs := [t42, t42] }).2 = some .dup := by decide
 
 /-! ### C06 (3) -/
 
@@ -161,7 +188,7 @@ example : (addBlock exEnv exNode { b1 with txs := [] }).2 = some .merkle ∧
 
 /-- C06: `Inv` (headers ahead of the tip are linked, signed and, for the first one, carry the local
 state root) is kept by every AddBlock call, accepted or not. With `inv_genesis` this makes
-`accept_only_valid_partial` applicable at every reachable state. -/
+`accept_only_valid` applicable at every reachable state. -/
 theorem inv_addBlock (env : Env L) (s s' : Node L) (b : Block) (r : Option Err)
     (hskip : s.cfg.skip = false) (hinv : Inv env s) (hbind : HashBinds s b)
     (h : addBlock env s b = (s', r)) : Inv env s' :=
@@ -169,6 +196,7 @@ theorem inv_addBlock (env : Env L) (s s' : Node L) (b : Block) (r : Option Err)
 
 example : Inv exEnv (addBlock exEnv exNode b1).1 :=
   inv_addBlock exEnv exNode _ b1 _ rfl (inv_genesis exEnv exCfg g0 3 [] rfl)
-    (by intro kh hm hh; simp [exNode] at hm; subst hm; exact absurd hh (by decide)) rfl
+    ⟨by intro kh hm hh; simp [exNode] at hm; subst hm; exact absurd hh (by decide),
+     by intro x hx y hy _; simp [exNode] at hx hy; subst hx; subst hy; rfl⟩ rfl
 
 end NeoModel.AddBlock
